@@ -58,7 +58,10 @@ def _sr_ok_ensures(pre, post):
 
 
 def _sr_fail_ensures(pre, post):
-    return same_buffer(pre, post)
+    o, o2 = pre.obj('stream'), post.obj('stream')
+    n = pre.int('length')
+    # a short read has consumed what was left (io.BytesIO.read); a negative length is refused before reading
+    return [('short-read-consumes-the-rest', t.eq(o2.pos, t.ite(t.lt(n, t.ZERO), o.pos, t.imax(o.pos, o.len))), F)] + same_buffer(pre, post)
 
 
 register(FnContract(
